@@ -43,7 +43,7 @@ func main() {
 		{Cfg: mk("2111-byz-small", []int64{2, 1, 1, 1}, netsim.Config{Byz: []int{3}}), Bound: b - 1},
 		{Cfg: mk("4x1-two-heights", one, netsim.Config{Byz: []int{3}, TargetHeight: 2}), Bound: b - 1},
 		// the validator set changes while the chain runs (re-powering in force from height 3, the Byzantine validator removed from height 4)
-		{Cfg: mk("4x1-valset-change", one, netsim.Config{Byz: []int{3}, TargetHeight: 5, ValScript: map[uint64][]int64{1: {3, 1, 1, 1}, 2: {3, 1, 1, 0}}}), Bound: b - 1},
+		{Cfg: mk("4x1-valset-change", one, netsim.Config{Byz: []int{3}, TargetHeight: 5, ValScript: map[uint64][]int64{1: {1, 3, 1, 1}, 2: {1, 3, 1, 0}}}), Bound: b - 1},
 	}
 	macro := "macro2"
 	if r.Thorough() {
